@@ -493,7 +493,8 @@ def _replay_one(mod, subname, case):
 def write_replay(prop, subname, seed, case, clause, detail):
     d = os.path.join(ROOT, 'replays')
     os.makedirs(d, exist_ok=True)
-    path = os.path.join(d, f'{prop}-{subname}-{clause}-{seed}.json')
+    safe = ''.join(ch if (ch.isalnum() or ch in '-_.') else '_' for ch in str(clause))[:80].strip('_')  # replay=<path> must be one shell word
+    path = os.path.join(d, f'{prop}-{subname}-{safe}-{seed}.json')
     with open(path, 'w') as f:
         json.dump({'property': prop, 'sub': subname, 'clause': clause, 'detail': detail, 'case': case}, f, indent=1, sort_keys=True)
     return os.path.relpath(path, ROOT)
